@@ -74,7 +74,7 @@ def run(ctx: Ctx):
         "two Einsums: additivity of energy/latency and the shared-prefix + max-over-branches peak usage are assumed (C04/C06's subject)",
         "usage objectives: one coordinate per memory of finite size (the reservation columns the mapper reports)",
     ]
-    n = 36 if ctx.thorough else 6
+    n = 36 if ctx.thorough else 5
     limit = 600_000 if ctx.thorough else 70_000
     ML.init(1)
     drv = ctx.driver()
